@@ -1,4 +1,3 @@
-(* WIP *)
 (* C13 — Connections start with one CONNACK and only authenticated clients are admitted.
    Statements only; proofs are [exact lemma] or vm_compute witnesses.
 
